@@ -137,6 +137,14 @@ def _sampling_cfg(rng):
             c["dt"] = "%r %s" % (c["dt"] * fu / fv, v)
         if rng.random() < 0.3:
             c["interval"] = "%r %s" % (c["interval"] * fu / fv, v)
+    r = rng.random()
+    if r < 0.12:
+        k = rng.randint(1, 3)
+        c["ts_first"] = [0.0] + [c["ts"][-1] * 2.5 if not isinstance(c["ts"][-1], str) else 7.0][:k]      # a later last time
+    elif r < 0.2:
+        c["ts_first"] = [0.0]                                                                              # an earlier one
+    elif r < 0.3:
+        c["edit_after"] = True
     return kind, c
 
 
